@@ -224,10 +224,6 @@ class MibCompiler(object):
                 debug.logger & debug.flagCompiler and debug.logger('MIB %s already parsed' % mibname)
                 continue
 
-            if mibname in failedMibs:
-                debug.logger & debug.flagCompiler and debug.logger('MIB %s already failed' % mibname)
-                continue
-
             for source in self._sources:
                 debug.logger & debug.flagCompiler and debug.logger('trying source %s' % source)
 
@@ -313,6 +309,11 @@ class MibCompiler(object):
                         debug.logger & debug.flagCompiler and debug.logger(
                             '%s (%s) read from %s, immediate dependencies: %s' % (
                                 mibInfo.name, mibname, fileInfo.path, ', '.join(mibInfo.imported) or '<none>'))
+
+                    if mibname in brokenMibs:
+                        # the module asked for is the broken one of this
+                        # file, a later source may have a sound copy
+                        continue
 
                     if mibname not in mibnames and mibname not in parsedMibs:
                         # a name taken from an IMPORTS clause is a module
